@@ -128,6 +128,55 @@ def presibling(c):
             "J": [list(reversed(r)) for r in reversed(c["J"])], "cat": c["cat"][: -len("+sibling")]}
 
 
+# global scales at which an aggregator built on the NORMALISED Gramian (UPGrad, DualProj: SVD of J, no J J^T in
+# the input dtype) resp. on the raw Gramian (MGDA) still has all its intermediates inside the dtype's range
+EXTREME = {"UPGrad": {"f32": (70, -80), "f64": (520, -600)}, "DualProj": {"f32": (70, -80), "f64": (520, -600)},
+           "MGDA": {"f32": (40, -40), "f64": (300, -300)}}
+TINY_NORM_EPS = {"f32": F(1, 10 ** 30), "f64": F(1, 10 ** 250)}
+
+
+def extreme_scales(chk, found, c, tol, pid, dts=("f64", "f32")):
+    """A(2^e J) = 2^e A(J) at the ends of the dtype's range (norm_eps chosen below sigma_max on both sides):
+    positive homogeneity is part of C11 and the c1 = c2 case of C09; for C03 / C04 / C18 it moves the
+    defining equations to scales where a mathematically identical rewrite (J J^T formed in the input
+    dtype, a norm that squares its argument, ...) overflows or underflows.  Power-of-two factors are
+    exact in floating point, so the two answers must agree to rounding."""
+    name, J = c["name"], c["J"]
+    ok = True
+    for dt, (up, down) in EXTREME[name].items():
+        if dt not in dts:
+            continue
+        p2 = dict(c["params"])
+        if "norm_eps" in p2:
+            p2["norm_eps"] = TINY_NORM_EPS[dt]
+        if name == "MGDA":
+            p2["max_iters"] = min(int(p2.get("max_iters", 100)), 20)
+        base = A.impl_call(name, p2, J, dt)
+        for e in (up, down):
+            Js = [[x * F(2) ** e for x in r] for r in J]
+            o = A.impl_call(name, p2, Js, dt)
+            chk.cov["evaluations"] = chk.cov.get("evaluations", 0) + 1
+            bad = None
+            if base[0] != "ok":
+                bad = f"{name} raised {base[1]} on a finite matrix"
+            elif o[0] != "ok":
+                bad = f"{name} raised {o[1]} on the finite matrix 2^{e} J ({dt})"
+            else:
+                sc = max(max(abs(x) for x in base[1]), float(A.maxabs(J)) * 1e-3, 1e-300)
+                err = max(abs(x / 2.0 ** e - y) for x, y in zip(o[1], base[1]))
+                if not err <= tol[dt] * sc:
+                    bad = (f"{name}: A(2^{e} J) / 2^{e} differs from A(J) by {err / sc:.3e} relative ({dt}; "
+                           f"sigma_max stays above norm_eps on both sides)")
+            if bad:
+                rep = case_json(c, dt)
+                rep.update({"kind": "extreme_scale", "e": e, "params": A.jsonable(p2)})
+                chk.violation(f"{pid} {bad}", rep)
+                found.add((name, A.jsonable(J).__repr__(), dt))
+                ok = False
+                break
+    return ok
+
+
 def dtypes_for(c):
     """float32 is used only where reg_eps dominates the float32 rounding error of the normalised
     Gramian (reg_eps's documented purpose is to keep the QP matrix positive definite in spite of
